@@ -213,7 +213,7 @@ def u2_files(sc, root: str) -> dict:
         if sc["kind"] == "function":
             return f"def {n}(from_d{t}: int) -> int:\n    ...\n"
         base = "(Exception)" if sc.get("variant") == "exccls" and t == 1 else ""
-        return f"class {n}{base}:\n    def m_d{t}(self) -> int:\n        ...\n\n    def _helper{s}(self) -> int:\n        ...\n"
+        return f"class {n}{base}:\n    def m_d{t}(self) -> int:\n        ...\n\n    def _helper{s}(self) -> int:\n        ...\n\n    @property\n    def _pprop{s}(self) -> int:\n        ...\n"
     other = "_other" if sc.get("variant") == "privreexp" else "other"      # the sibling package is a private one
     files = {f"{sid}/__init__.py": "", f"{sid}/sub/__init__.py": "", f"{sid}/sub/deep/__init__.py": "", f"{sid}/{other}/__init__.py": "",
              f"{sid}/{other}/fill.py": "def fill" + s + "() -> int:\n    ...\n",
@@ -229,6 +229,11 @@ def u2_files(sc, root: str) -> dict:
     if sc.get("variant") == "genericattr":   # class 1 is generic; a class attribute and a constructor-assigned attribute are typed by its type variable
         files[f"{sid}/sub/deep/{nm['m1']}.py"] = (f"from typing import Generic, TypeVar\n\nT{s} = TypeVar(\"T{s}\")\n\n\n"
                                                   f"class {nm[1]}(Generic[T{s}]):\n    content: T{s}\n    plain: int = 1\n\n    def __init__(self, item: T{s}):\n        self.item: T{s} = item\n\n"
+                                                  f"    def m_d1(self) -> int:\n        ...\n\n    def _helper{s}(self) -> int:\n        ...\n")
+    if sc.get("variant") == "redefclass":    # class 1 is defined twice; the definitions share attribute names
+        files[f"{sid}/sub/deep/{nm['m1']}.py"] = (f"class {nm[1]}:\n    retries: int = 1\n\n    def __init__(self):\n        self.verbose: bool = False\n\n"
+                                                  f"    def m_old{s}(self) -> int:\n        ...\n\n\n"
+                                                  f"class {nm[1]}:  # noqa: F811\n    retries: int = 3\n    level: int = 0\n\n    def __init__(self):\n        self.verbose: bool = True\n\n"
                                                   f"    def m_d1(self) -> int:\n        ...\n\n    def _helper{s}(self) -> int:\n        ...\n")
     if sc.get("variant") == "newtype":       # module 1 also defines a NewType, module 2 uses it
         m1, m2 = f"{sid}/sub/deep/{nm['m1']}.py", f"{sid}/sub/{nm['m2']}.py"
